@@ -65,6 +65,119 @@ def run(ctx, chk, tier):
                                   "%s = %s (the %s achievable value)" % (metric, want, "lowest" if r <= 0 else "highest"), ctx.where(q))
     chk.floor("R03", 72, "6 metrics x 4 configurations x 3 methods")
     sentinel_dtype(ctx, chk)
+    float_extremes(ctx, chk, tier)
+
+
+def feval(v, env):
+    """IEEE-double evaluation of an un-normalised term (Python int/float semantics = numpy float64 scalars)."""
+    from fractions import Fraction
+    from ..terms import App, Const, Num, Sym
+    if v in env:
+        return env[v]
+    if isinstance(v, Const):
+        x = v.value
+        if isinstance(x, bool) or isinstance(x, int):
+            return x
+        if isinstance(x, Fraction):
+            return x.numerator / x.denominator
+        raise CannotEvaluate("constant %r" % (x,))
+    if isinstance(v, App):
+        if v.fn in ("fAdd", "fSub", "fMult", "fDiv"):
+            a, b = feval(v.args[0], env), feval(v.args[1], env)
+            if v.fn == "fAdd":
+                return a + b
+            if v.fn == "fSub":
+                return a - b
+            if v.fn == "fMult":
+                return a * b
+            if b == 0:
+                raise CannotEvaluate("division by zero")
+            return a / b
+        if v.fn == "fneg":
+            return -feval(v.args[0], env)
+        if v.fn == "len":
+            return env[v]
+        if v.fn in ("min", "max"):
+            vals = [feval(a, env) for a in v.args]
+            return min(vals) if v.fn == "min" else max(vals)
+        if v.fn == "ite":
+            return feval(v.args[1], env) if fcond(v.args[0], env) else feval(v.args[2], env)
+        if v.fn in ("fresh", "asarray"):
+            return feval(v.args[0], env)
+    raise CannotEvaluate("float evaluation of %s" % (v.fn if isinstance(v, App) else type(v).__name__))
+
+
+def fcond(c, env):
+    from fractions import Fraction
+    from ..terms import App, Const, to_poly
+    if isinstance(c, Const):
+        return bool(c.value)
+    if isinstance(c, App) and c.fn in ("lt0", "le0", "eq0", "ne0"):
+        p = to_poly(c.args[0])
+        tot = Fraction(0)
+        for m, co in p.t.items():
+            term = Fraction(co)
+            for a, e in m:
+                x = feval(a, env)
+                term *= Fraction(x) ** e
+            tot += term
+        return {"lt0": tot < 0, "le0": tot <= 0, "eq0": tot == 0, "ne0": tot != 0}[c.fn]
+    if isinstance(c, App) and c.fn == "and":
+        return all(fcond(a, env) for a in c.args)
+    if isinstance(c, App) and c.fn == "or":
+        return any(fcond(a, env) for a in c.args)
+    if isinstance(c, App) and c.fn == "not":
+        return not fcond(c.args[0], env)
+    raise CannotEvaluate("condition %s" % c.key[:60])
+
+
+def float_extremes(ctx, chk, tier):
+    """R03.3: in IEEE double arithmetic the rescaled target at r = 0 / r = 1 lies exactly at or beyond the end of the scale
+    for every combination of small hard/easy counts (bounded grid); otherwise the extreme special cases do not trigger."""
+    from ..terms import App
+    from ..spec import POS, NEG, EP, EN, returns
+    from .thr import TAR, R, explore_threshold, _cache
+    HPa, HNa = App("len", (POS,)), App("len", (NEG,))
+    hs = (1, 2, 3, 5, 12) if tier != "thorough" else (1, 2, 3, 4, 5, 7, 12, 33)
+    es = (0, 1, 2, 3, 5, 7, 22, 40) if tier != "thorough" else tuple(range(0, 45))
+    ctx.ev.raw_float = True
+    try:
+        for metric in METRICS:
+            q = SCORES + ".threshold_at_" + metric
+            key = (id(ctx), metric, "pos", "pos", "linear", SCORES, TAR)
+            _cache.pop(key, None)
+            outs = [o for o in returns(explore_threshold(ctx, chk, metric, "pos", "pos", "linear", stub=TAR)) if o.captured]
+            _cache.pop(key, None)
+            if not outs:
+                chk.unknown("R03.3", "%s: helper call not found" % metric)
+                continue
+            bad = None
+            n = 0
+            try:
+                for hp in hs:
+                    for hn in hs:
+                        for ep in es:
+                            for en in es:
+                                for r, side in ((1.0, "hi"), (0.0, "lo")):
+                                    env = {HPa: hp, HNa: hn, EP: ep, EN: en, R: r}
+                                    hit = [o for o in outs if all(fcond(c, env) == t for c, t in o.pc)]
+                                    if len(hit) != 1:
+                                        raise CannotEvaluate("%d feasible paths" % len(hit))
+                                    rho = feval(hit[0].captured["target_ratio"], env)
+                                    n += 1
+                                    ok = rho >= 1.0 if side == "hi" else rho <= 0.0
+                                    if not ok and bad is None:
+                                        bad = "len(pos)=%d len(neg)=%d easy=(%d,%d): target %s rescales to %r in double arithmetic" % (hp, hn, ep, en, r, rho)
+            except CannotEvaluate as e:
+                chk.unknown("R03.3", "%s: rescale not evaluable in float arithmetic (%s)" % (metric, e))
+                continue
+            chk.paths(n)
+            if bad is None:
+                chk.hold("R03.3", "float-extremes:" + metric, "%d (counts, target) cells: r=1 -> >= 1.0 and r=0 -> <= 0.0 exactly in IEEE double" % n)
+            else:
+                chk.violation("R03.3", q, "float-extremes:" + metric, bad, "exactly >= 1.0 for target 1 and <= 0.0 for target 0 (else the extreme special cases do not trigger)", ctx.where(q))
+    finally:
+        ctx.ev.raw_float = False
 
 
 def is_float_typed(v):
